@@ -14,7 +14,7 @@ import ast
 
 from .catalogue import DT, _ModuleNS
 from .interp import ExcCtor, Func, Interp, Native, NoOp, Obj, PyRaise  # noqa: F401
-from .source import AnalysisError
+from .source import AnalysisError, norm
 
 STUBS = """
 class Table:
@@ -100,16 +100,30 @@ class World:
         self.env["_cache_update"] = Native(lambda c, node, rc: (_ for _ in ()).throw(Accepted("Cache.update", (c, node, rc), {})), "Cache.update")
         self.env["check_subquery"] = Native(lambda new, tbl, is_right=False: (new, tbl), "check_subquery")
         self.env["str"] = str
+        import functools as _ft
+        import operator as _op
+
+        self.env.setdefault("functools", _ModuleNS({"partial": _ft.partial, "reduce": _ft.reduce}))
+        self.env.setdefault("operator", _ModuleNS({k: v for k, v in vars(_op).items() if not k.startswith("_")}))
         if types_env is not None:
             self.types_env = types_env
         # module-level helper functions of the verb module are interpreted on demand (a validation may live in a helper)
         defs = {st.name: st for st in module.tree.body if isinstance(st, ast.FunctionDef)}
+
+        cdefs = {st.name: st for st in module.tree.body if isinstance(st, ast.ClassDef)}
 
         def resolve(name):
             if name in defs:
                 f_ = Func(defs[name], self.env, self.it)
                 self.env[name] = f_
                 return f_
+            if name in cdefs:
+                # a small record class of the verb module (NamedTuple / dataclass): fields by position or keyword
+                c_ = self.it.make_class(cdefs[name], self.env)
+                if any("NamedTuple" in norm(b) for b in cdefs[name].bases):
+                    c_.is_dataclass = True
+                self.env[name] = c_
+                return c_
             # names the module imports from the type system (`types`, `lca_type`, ..): the interpreted type functions
             tgt = module.imports.get(name, "")
             if types_env is not None and tgt:
